@@ -670,7 +670,7 @@ def eval_dyad_maximum(a, b, backend):
                     1.0|1.1  -->  1.1
 
     """
-    return backend.np.maximum(a, b)
+    return backend.vec_fn2(a, b, backend.np.maximum)
 
 
 def eval_dyad_minimum(a, b, backend):
@@ -697,7 +697,7 @@ def eval_dyad_minimum(a, b, backend):
                     1.0&1.1  -->  1.0
 
     """
-    return backend.np.minimum(a, b)
+    return backend.vec_fn2(a, b, backend.np.minimum)
 
 
 def eval_dyad_more(a, b, backend):
@@ -800,7 +800,7 @@ def eval_dyad_remainder(a, b, backend):
                    -7!-5  --> -2
 
     """
-    return backend.np.fmod(a, b)
+    return backend.vec_fn2(a, b, backend.np.fmod)
 
 
 def eval_dyad_reshape(a, b, backend):
